@@ -26,6 +26,59 @@ def under_lock(pm, node):
     return None
 
 
+def _exec_max(ctx, fn, sites, region, _stack=()):
+    """Largest number of the write sites `sites` ({(function qual, line)})
+    one execution of fn can pass: on each path of fn its own sites (each
+    once) plus, for every call of a function of the reload region - also one
+    handed over as a callback -, what that function can pass.  The two arms
+    of an if/else are one write; two loops, or a reset followed by a helper
+    that writes again, are two."""
+    from ..dte import Table
+    from ..load_model import load_table
+    prog = ctx.prog
+    cache = ctx.__dict__.setdefault('_cache', {}).setdefault('c20_exec', {})
+    key = (fn.qual, tuple(sorted(sites)))
+    if key in cache:
+        return cache[key]
+    if fn.qual in _stack:
+        return 0
+    try:
+        t = load_table(ctx) if fn.qual == ENF + '.load_rules' else Table(
+            prog, fn, max_paths=50000)
+    except AnalysisError:
+        cache[key] = len([s_ for s_ in sites if s_[0] == fn.qual])
+        return cache[key]
+    best = 0
+    for p in t.paths:
+        own = set()
+        extra = 0
+        for e in p.events:
+            fr = e.frame or fn.qual
+            if e.kind in ('store', 'aug', 'del', 'call', 'maycall') and (
+                    fr, e.line) in sites:
+                own.add((fr, e.line))
+            if e.kind != 'call' or not isinstance(e.node, ast.Call):
+                continue
+            if e.sym and str(e.sym).startswith('inlined:'):
+                continue            # its events are on this path already
+            frame = prog.functions.get(fr, fn)
+            g = prog.callee_of(frame, e.node)
+            callees = [g] if g is not None else []
+            for a in list(e.node.args) + [k.value for k in e.node.keywords]:
+                if isinstance(a, ast.Attribute):
+                    h = prog.callee_of(frame, ast.Call(func=a, args=[],
+                                                       keywords=[]))
+                    if h is not None:
+                        callees.append(h)
+            for h in callees:
+                if h.qual in region and h is not fn:
+                    extra += _exec_max(ctx, h, sites, region,
+                                       _stack + (fn.qual,))
+        best = max(best, len(own) + extra)
+    cache[key] = best
+    return best
+
+
 def check_flags(ctx, prog, lr):
     """The switch that makes every enforcement call load (use_conf) is
     never lowered during a reload: a concurrent call would skip its own load
@@ -303,8 +356,27 @@ def check(ctx):
             lst = sorted(lst, key=lambda x: (x[0].qual, getattr(
                 x[1].node, 'lineno', 0)))
             f, e, lock = lst[0][:3]
+            # how many of these writes one execution can perform: per
+            # function the largest number on a path (the two arms of an
+            # if/else are one write, two loops are two), summed
+            sites = {(x[0].qual, getattr(x[1].node, 'lineno', None))
+                     for x in lst}
+            nw = _exec_max(ctx, lr, sites, region) or len(lst)
+            # kinds of write, coarsely: entries added / replaced (`fill`),
+            # entries removed (`drain`), the object's own attributes (`attr`)
+            def coarse(k):
+                k = k.split(':')[-1]
+                if k in ('insert', 'update', 'setdefault', '__setitem__'):
+                    return 'fill'
+                if k in ('pop', 'clear', 'popitem', 'del', 'remove',
+                         '__delitem__'):
+                    return 'drain'
+                if k == 'store':
+                    return 'attr'
+                return k
+            kinds = sorted({coarse(x[3]) for x in lst})
             ctx.ob('C20.PUBLISH', False, ctx.where(f.module, e.node), ENF,
-                   '%s %s x%d' % (kind, store, len(lst)),
+                   '%s %s x%d [%s]' % (kind, store, nw, ','.join(kinds)),
                    'the shared store %s is %s without a common lock and not '
                    'as a single swap of a completely built object: a '
                    'concurrent decision can see a half-rebuilt rule set '
@@ -318,8 +390,9 @@ def check(ctx):
                        x[1].node, 'lineno', None)) for x in lst],
                        # writes that fill the store one entry at a time
                        # (many interleaving points) among them
-                       'entrywise': sum(1 for x in lst
-                                        if x[3] == 'insert')})
+                       'entrywise': _exec_max(ctx, lr, {
+                           (x[0].qual, getattr(x[1].node, 'lineno', None))
+                           for x in lst if x[3] == 'insert'}, region)})
     check_flags(ctx, prog, lr)
     # the loader reports truthfully whether it rebuilt the store (the
     # directories are then re-applied on top of it)
